@@ -68,7 +68,7 @@ theorem check_stale_ok {cfg : Cfg} {s s' : State} {k : Uri} {t t' : Tmpl} {f : F
     (h : t.file = some f) (hf : s.fs f = some file) (hk : t.stamp < file.mtime)
     (hc : construct cfg { s with coll := erase s.coll k } k f = (.ok t', s')) :
     check cfg s k t = (.ok t', setItem cfg s' k t') := by
-  have hl := load_ok (cfg := cfg) (s := { s with coll := erase s.coll k }) (get?_erase_self s.coll k) hc
+  have hl := loadFresh_ok (cfg := cfg) (s := { s with coll := erase s.coll k }) hc
   have : ¬ file.mtime ≤ t.stamp := by omega
   simp [check, h, hf, keepCached_eq, this, hl]
 
@@ -76,7 +76,7 @@ theorem check_stale_err {cfg : Cfg} {s s' : State} {k : Uri} {t : Tmpl} {e : Exc
     (h : t.file = some f) (hf : s.fs f = some file) (hk : t.stamp < file.mtime)
     (hc : construct cfg { s with coll := erase s.coll k } k f = (.error e, s')) :
     check cfg s k t = (.error (if e = .os then .lookup else e), { s' with coll := erase s'.coll k }) := by
-  have hl := load_err (cfg := cfg) (s := { s with coll := erase s.coll k }) (get?_erase_self s.coll k) hc
+  have hl := loadFresh_err (cfg := cfg) (s := { s with coll := erase s.coll k }) hc
   have : ¬ file.mtime ≤ t.stamp := by omega
   have hee : erase (erase s'.coll k) k = erase s'.coll k := erase_of_get?_none (get?_erase_self _ _)
   cases e <;> simp [check, h, hf, keepCached_eq, this, hl, hee]
@@ -177,7 +177,7 @@ theorem construct_ok_fresh {cfg : Cfg} {s s' : State} {k : Uri} {f : FileRef} {t
   rw [hc] at hcc
   cases hcc with
   | regen file hf hb hr => exact ⟨file, hf, h.mtime_le _ _ hf, rfl, rfl⟩
-  | reuse file m hf hmd hm hle => exact ⟨file, hf, hle, rfl, rfl⟩
+  | reuse file m hf hmd hm hle hsrc => exact ⟨file, hf, hle, rfl, rfl⟩
 
 /-- the entry under `u` would pass `_check`: a `get_template(u)` returns it as it is -/
 def Served (cfg : Cfg) (s : State) (u : Uri) (t : Tmpl) : Prop :=
@@ -277,17 +277,15 @@ theorem get_ok_served {cfg : Cfg} {s s' : State} {u : Uri} {t : Tmpl} (h : Inv c
 
 /-! ## frames: operations on other URIs do not touch the entry of `u` in a plain dict -/
 
-theorem load_frame_plain {cfg : Cfg} (s : State) {k u : Uri} (f : FileRef) (hc : cfg.cap = none) (h : u ≠ k) :
-    valAt (load cfg s k f).2 u = valAt s u := by
-  unfold load
+theorem loadFresh_frame_plain {cfg : Cfg} (s : State) {k u : Uri} (f : FileRef) (hc : cfg.cap = none) (h : u ≠ k) :
+    valAt (loadFresh cfg s k f).2 u = valAt s u := by
+  unfold loadFresh
+  have hp := construct_post cfg s k f
   split
-  · exact valAt_stampHit s k u
-  · have hp := construct_post cfg s k f
-    split
-    · rename_i t s' heq; rw [heq] at hp
-      rw [valAt_setItem_ne_plain s' t hc h]; exact valAt_congr hp.coll u
-    · rename_i e s' heq; rw [heq] at hp
-      rw [valAt_erase_ne s' h]; exact valAt_congr hp.coll u
+  · rename_i t s' heq; rw [heq] at hp
+    rw [valAt_setItem_ne_plain s' t hc h]; exact valAt_congr hp.coll u
+  · rename_i e s' heq; rw [heq] at hp
+    rw [valAt_erase_ne s' h]; exact valAt_congr hp.coll u
 
 theorem check_frame_plain {cfg : Cfg} (s : State) {k u : Uri} (t : Tmpl) (hc : cfg.cap = none) (h : u ≠ k) :
     valAt (check cfg s k t).2 u = valAt s u := by
@@ -302,12 +300,21 @@ theorem check_frame_plain {cfg : Cfg} (s : State) {k u : Uri} (t : Tmpl) (hc : c
       simp only
       split
       · rfl
-      · have hl := load_frame_plain (cfg := cfg) { s with coll := erase s.coll k } f hc h
+      · have hl := loadFresh_frame_plain (cfg := cfg) { s with coll := erase s.coll k } f hc h
         rw [valAt_erase_ne s h] at hl
         split
         · rename_i s' heq; rw [heq] at hl
           rw [valAt_erase_ne s' h]; exact hl
         · exact hl
+
+theorem load_frame_plain {cfg : Cfg} (s : State) {k u : Uri} (f : FileRef) (hc : cfg.cap = none) (h : u ≠ k) :
+    valAt (load cfg s k f).2 u = valAt s u := by
+  unfold load
+  split
+  · split
+    · rw [check_frame_plain (stampHit s k) _ hc h]; exact valAt_stampHit s k u
+    · exact valAt_stampHit s k u
+  · exact loadFresh_frame_plain s f hc h
 
 theorem getTemplate_frame_plain {cfg : Cfg} (s : State) {k u : Uri} (hc : cfg.cap = none) (h : u ≠ k) :
     valAt (getTemplate cfg s k).2 u = valAt s u := by
